@@ -231,7 +231,7 @@ func parseSpecExpr(raw string) (ast.Expr, error) {
 // Loading
 
 var reLabel = regexp.MustCompile(`^(\w+)\[([^\]]+)\]\s*(.*)$`)
-var reExternHdr = regexp.MustCompile(`^(.*\.[A-Za-z_]\w*)\(([^()]*)\)\s*(?:\(([^()]*)\))?\s*$`)
+var reExternHdr = regexp.MustCompile(`^(.*\.(?:[A-Za-z_]\w*|\*))\(([^()]*)\)\s*(?:\(([^()]*)\))?\s*$`)
 var rePureHdr = regexp.MustCompile(`^(\w+)\((.*?)\)\s*([^=]*?)\s*(?:=\s*(.*))?$`)
 
 type rawLine struct {
